@@ -81,3 +81,48 @@ CLAIMED["C08"] = ("proof",
     "Trusted: Coq kernel + stdlib real axioms; Agg.v (tied by AGG-CORR); that sigma_max / pinv / eigh / solver "
     "answers are functions of the Gramian (oracle arguments are the same on both sides of the theorem).",
     "Coq proof (meta-theorem + instances) + differential oracle")
+CLAIMED["C09"] = ("proof",
+    "PARTIAL. Proved in Coq (props/C09.v), all sizes: for every FIXED weight vector (Mean, Sum, Constant, Random "
+    "under a fixed draw) c -> A(diag(c) J) is linear in c (all c, not only positive). NOT proved, checked by the "
+    "direct oracle only: PCGrad (fixed seed) and ConFIG linearity on positive c; UPGrad's defect bound "
+    "K sqrt(reg_eps) s|w| on the ladder 1e-2..1e-12 and vanishing at 1e-16 (K = 10x the maximum measured on the "
+    "unchanged tree). Oracle: three related scalings c1, c2, a c1 + b c2 with entries 2^-10..2^10, f32/f64.",
+    "DESIGN.md §8 C09, §13",
+    "Trusted: Coq kernel + stdlib real axioms; Agg.v; torch RNG under manual_seed draws independently of the "
+    "matrix entries; the constant K is empirical.",
+    "Coq proof (fixed-weight family) + differential oracle")
+CLAIMED["C10"] = ("proof",
+    "PARTIAL. Proved in Coq (props/C10.v), all sizes: permuting rows together with their weights leaves the "
+    "combination unchanged (meta-theorem; covers Constant / preference vectors permuted alongside and any "
+    "equivariant weighting); Mean, Sum and TrimmedMean are invariant under any row permutation. NOT proved "
+    "(oracle + correspondence only): equivariance of the QP, Frank-Wolfe, Krum, pinv/eigh/conic-solver based "
+    "weightings. Oracle: ALL m! row permutations (m<=4 quick, <=5 thorough) for 13 aggregators with "
+    "pref/weight/leak vectors permuted alongside, GradDrop under a fixed seed, f32/f64, on tie-free inputs "
+    "(exact MGDA argmin ties, Krum score ties, IMTL-G/CAGrad/ConFIG points of discontinuity are skipped and counted).",
+    "DESIGN.md §8 C10, §13",
+    "Trusted: Coq kernel + stdlib real axioms; Agg.v; tie/conditioning filters of the harness.",
+    "Coq proof (meta + 3 instances) + exhaustive-permutation oracle")
+CLAIMED["C11"] = ("proof",
+    "PARTIAL. Proved in Coq (props/C11.v): the 2-d/finiteness check is Ok iff 2-d and finite, else ValueError; "
+    "row-count contradictions of Constant/pref vectors, GradDrop's leak, TrimmedMean, Krum yield ValueError; every "
+    "model output has one entry per column; A(tJ)=tA(J) for every fixed weighting, for any weighting invariant "
+    "under positive scaling of the Gramian (meta), for MGDA (all budgets), TrimmedMean and the fixed IMTL-G; the "
+    "pre-fix absolute guard of IMTL-G refutes homogeneity (witness J=[[1]], t=10^13). OBSERVED, not proved "
+    "(true by construction in a functional exact model): finiteness over 27/200 orders of magnitude, dtype "
+    "preservation, bitwise-unchanged input, independence from earlier calls, equal seeds => equal results; "
+    "homogeneity of the other aggregators at t=2^e over the full stated ranges; malformed stream.",
+    "DESIGN.md §8 C11, §13",
+    "Trusted: Coq kernel + stdlib real axioms; Agg.v; float behaviour is observed only. UPGrad/DualProj in "
+    "float32 are exercised with reg_eps >= 1e-4 only (below float32 rounding quadprog may report a non-PD matrix).",
+    "Coq proof (validation, shape, homogeneity family) + differential observation")
+CLAIMED["C17"] = ("proof",
+    "PARTIAL. Proved in Coq (props/C17.v): from the pinv contract G P = I (independent rows), IMTL-G's weights sum "
+    "to one and (J.A(J))_i = |g_i|/sigma for every i (equal projections); every weighted model and ConFIG map an "
+    "all-zero matrix to the zero vector. NOT proved (oracle only): ConFIG's equal positive cosines / length, "
+    "Aligned-MTL's re-balanced rows. Oracle: the defining equalities on full-row-rank matrices (condition <= 1e3, "
+    "scales 2^-30..2^25, positive preference vectors, short-row-between-long-rows structures, 2^16 zero columns "
+    "appended for Aligned-MTL), zero matrices of 7 shapes.",
+    "DESIGN.md §8 C17, §13",
+    "Trusted: Coq kernel + stdlib real axioms; Agg.v; LAPACK pinv/eigh (exact rational pinv in the harness for "
+    "IMTL-G's model, float64 numpy for ConFIG/Aligned-MTL).",
+    "Coq proof (IMTL-G, zero) + differential oracle")
